@@ -1387,8 +1387,30 @@ func runNesting(p *Program, sp *Spec, c *Collector, ns NestingSpec) {
 			}
 		}
 	}
+	if !tested {
+		// the other discipline: a depth kept by the Enter/Exit pair (a package-level counter both callbacks touch)
+		if recv := fn.Signature.Recv(); recv != nil {
+			pr, tn := "", ""
+			if pk, n := namedTypeName(recv.Type()); pk != "" {
+				pr, tn = strings.TrimPrefix(pk, modPath+"/"), n
+			}
+			for _, m := range p.methodsDeclaredOn(pr, tn) {
+				if m.Name() != "Exit"+strings.TrimPrefix(fn.Name(), "Enter") {
+					continue
+				}
+				a := getStateAn(p)
+				_, wExit := a.locals(m)
+				rEnter, _ := a.locals(fn)
+				for g := range wExit {
+					if _, ok := rEnter[g]; ok {
+						tested = true
+					}
+				}
+			}
+		}
+	}
 	if tested {
-		c.Ob(ns.Props, "E6.nesting", key, Discharged, "rule "+rule+" can occur inside itself (through "+via+"); the callback inspects the type of its parent", p.FuncPos(fn), true)
+		c.Ob(ns.Props, "E6.nesting", key, Discharged, "rule "+rule+" can occur inside itself (through "+via+"); the callback inspects the type of its parent (or keeps a depth with its Exit callback)", p.FuncPos(fn), true)
 	} else {
 		c.Ob(ns.Props, "E6.nesting", key, Violated, ns.What+": rule "+rule+" can occur inside itself (through "+via+"), and the callback records every occurrence alike without looking at its parent: a nested occurrence is recorded as if it stood on the declaration", p.FuncPos(fn), false)
 	}
